@@ -426,6 +426,244 @@ def h_pipeline(I, fi):
 PT = "phyclone.process_trace.process_trace"
 
 
+def h_consensus_command(I, fi):
+    """write_consensus_results, both weightings, any number of chains / entries / distinct topologies:
+      counts   the trees are every entry of every chain restored with Tree.from_dict, no weights;
+      weighted the trees are the distinct topologies of the whole trace (create_topology_dict_from_trace, C11) and the weight of topology j is
+               exp_normalize over ( log_p_joint_max_j + log count_j ) - same j for the tree and its weight, normalised before it is handed on;
+    the consensus is taken at the caller's threshold with that weighting flag, turned into a Tree with the trace's data, tabulated with the trace's samples and
+    clusters, and exactly that table and tree are written."""
+    from contracts.c11_trace import Effects, GzipMod, PickleMod
+    P = I.P
+    fx = Effects()
+    log = fx.log
+    weighted = P.decide(2) == 1
+    thr = alg.sym("threshold")
+    nch, ntop = alg.sym("n_chains", "Int"), alg.sym("n_topologies", "Int")
+    P.assume(z3.And(P.z(nch) >= 1, P.z(ntop) >= 1))
+
+    def k_(x):
+        return x.key() if isinstance(x, Num) else x
+
+    class Entry(Model):
+        def __init__(self, c, i):
+            self.c, self.i = c, i
+
+        def getitem(self, I_, key):
+            return ("field", key, k_(self.c), k_(self.i))
+
+    class ChainRes(Model):
+        def __init__(self, c):
+            self.c = c
+
+        def getitem(self, I_, key):
+            if key == "trace":
+                ln = alg.raw_app("n_entries", I_.to_num(self.c) if not isinstance(self.c, tuple) else Num.const(0), sort="Int")
+                I_.P.assume(I_.P.z(ln) >= 0)
+                return SymSeq("trace", ln, lambda i: Entry(self.c, I_.to_num(i)))
+            return ("chain-field", key, k_(self.c))
+
+        def m_get(self, I_, key, default=None):
+            return ("chain-field-or-none", key, k_(self.c), default)
+
+    class Results(Model):
+        def getitem(self, I_, c):
+            return ChainRes(I_.to_num(c))
+
+        def m_values(self, I_):
+            return SymSeq("chains", nch, lambda c: ChainRes(I_.to_num(c)))
+
+        def m_items(self, I_):
+            return SymSeq("chains.items", nch, lambda c: (I_.to_num(c), ChainRes(I_.to_num(c))))
+
+    results = Results()
+    I.registry.globals_override["gzip"] = GzipMod(fx)
+    I.registry.globals_override["pickle"] = PickleMod(fx, results)
+
+    class Info(Model):
+        def __init__(self, j):
+            self.j = j
+
+        def getitem(self, I_, key):
+            if key == "log_p_joint_max":
+                return alg.raw_app("score", self.j)
+            if key == "count":
+                c = alg.raw_app("count", self.j, sort="Int")
+                I_.P.assume(I_.P.z(c) >= 1)
+                return c
+            raise Unsupported("topology record[%r]" % (key,))
+
+    class Topos(Model):
+        def m_items(self, I_):
+            return SymSeq("topologies.items", ntop, lambda j: (("topology", k_(I_.to_num(j))), Info(I_.to_num(j))))
+
+    I.registry.call_contracts[PT + ".create_topology_dict_from_trace"] = lambda I_, a, k, n: (log.append(("topology-dict", a[0])), Topos())[1]
+    I.registry.call_contracts["phyclone.tree.tree.Tree.from_dict"] = lambda I_, a, k, n: ("tree-from", a[-1])
+    I.registry.call_contracts["phyclone.utils.math.exp_normalize"] = lambda I_, a, k, n: (("normalised", a[0]), ("log-norm", a[0]))
+    I.registry.call_contracts[CONS + ".get_consensus_tree"] = lambda I_, a, k, n: (log.append(("consensus", list(a), dict(k))), ("graph",))[1]
+    I.registry.call_contracts[PT + ".get_tree_from_consensus_graph"] = lambda I_, a, k, n: (log.append(("to-tree", a[0], a[1])), ("tree",))[1]
+    I.registry.call_contracts[PT + ".get_clone_table"] = lambda I_, a, k, n: (log.append(("table", a[0], a[1], a[2], k.get("clusters", a[3] if len(a) > 3 else None))), ("table",))[1]
+    I.registry.call_contracts[PT + "._create_results_output_files"] = lambda I_, a, k, n: log.append(("write", a[0], a[1], a[2], a[3]))
+
+    class NP(Model):
+        def m_array(self, I_, x):
+            return ("array", x)
+
+        def m_log(self, I_, x):
+            return alg.slog(I_.to_num(x))
+
+        def getattr(self, I_, name):
+            try:
+                return Model.getattr(self, I_, name)
+            except Unsupported:
+                from pyvc.interp import PyBuiltin
+                # any other numpy call on the weights is kept as a token: the obligation on the weights then fails instead of the engine giving up
+                return PyBuiltin("np." + name, lambda I2, *a, **k: NpTok(name, a))
+
+    class NpTok(Model):
+        def __init__(self, name, args):
+            self.name, self.args = name, args
+
+        def binop(self, I_, op, other, swapped):
+            return NpTok(type(op).__name__, (other, self) if swapped else (self, other))
+
+    class Pd(Model):
+        def m_DataFrame(self, I_, x):
+            return ("frame", x)
+
+    class RecList(Model):
+        """a list the command fills: records what is appended / extended (one generic iteration per loop under the independent-iterations rule)"""
+
+        def __init__(self, name):
+            self.name, self.items = name, []
+
+        def m_append(self, I_, x):
+            self.items.append(("one", x))
+
+        def m_extend(self, I_, xs):
+            self.items.append(("many", xs))
+
+        def m___len__(self, I_):
+            raise Unsupported("length of an accumulated list")
+
+    made_lists = []
+
+    def new_list(I_, node):
+        made_lists.append(RecList("trees" if not made_lists else ("probs" if len(made_lists) == 1 else "list%d" % len(made_lists))))
+        return made_lists[-1]
+
+    I.registry.empty_list_model = new_list
+    I.registry.globals_override["np"] = NP()
+    I.registry.globals_override["pd"] = Pd()
+    I.registry.generic_loops.add(fi.qualname)
+    I.call_function(fi, [("in",), ("out-table",), ("out-tree",)], {"consensus_threshold": thr, "weight_type": "joint-likelihood" if weighted else "counts"}, force_inline=True)
+    dsl.cover(I, "consensus-command.weighted" if weighted else "consensus-command.counts")
+    gens = P.ghost.get("generic_indices", [])
+    cons = [e for e in log if e[0] == "consensus"]
+    if len(cons) != 1:
+        P.check("consensus-command.one-consensus", False, "the consensus is computed once", kind="post")
+        return
+    a, k = cons[0][1], cons[0][2]
+
+    def arg(pos, name):
+        return a[pos] if len(a) > pos else k.get(name)
+
+    trees, data, t_, w_, lp = arg(0, "trees"), arg(1, "data"), arg(2, "threshold"), arg(3, "weighted"), arg(4, "log_p_list")
+    P.check("consensus-command.callers-threshold-and-mode", isinstance(t_, Num) and (t_ - thr).is_zero() and w_ is weighted, "the consensus uses the caller's threshold and the weighting the caller asked for", kind="post")
+    P.check("consensus-command.data-of-the-trace", data == ("chain-field", "data", Num.const(0).key()), "data points are those stored with the trace", kind="post")
+    if weighted:
+        ok = len(gens) == 1 and isinstance(trees, RecList) and trees.items == [("one", ("topology", gens[0].key()))] and ("topology-dict", results) in log
+        P.check("consensus-command.weighted.trees-are-the-distinct-topologies", ok, "one tree per distinct topology of the whole trace", kind="post")
+        okw = False
+        if ok and isinstance(lp, tuple) and lp[0] == "normalised" and isinstance(lp[1], tuple) and lp[1][0] == "array" and isinstance(lp[1][1], RecList) and lp[1][1] is not trees \
+                and len(lp[1][1].items) == 1 and lp[1][1].items[0][0] == "one":
+            j = gens[0]
+            want = alg.raw_app("score", j) + alg.slog(alg.raw_app("count", j, sort="Int"))
+            got = lp[1][1].items[0][1]
+            okw = isinstance(got, Num) and (bool(alg.is_identically_zero(got - want)) or not P.feasible(P.z(got) != P.z(want)))
+        P.check("consensus-command.weighted.weight-of-the-same-topology", okw,
+                "the weight list is exp_normalize over (log_p_joint_max_j + log count_j), entry j belonging to tree j, and it is the NORMALISED vector that is handed on", kind="post")
+    else:
+        ok = isinstance(trees, RecList) and len(trees.items) == 1 and trees.items[0][0] == "many" and isinstance(trees.items[0][1], SymSeq) and len(gens) >= 1
+        if ok:
+            seg = trees.items[0][1]
+            c = gens[0]
+            ok = not seg.tail and not P.feasible(P.z(seg.core_len) != P.z(alg.raw_app("n_entries", c, sort="Int")))
+            i_ = alg.sym("i_entry", "Int")
+            P.assume(z3.And(P.z(i_) >= 0, P.z(i_) < P.z(seg.core_len)))
+            if ok and P.feasible(z3.BoolVal(True)):
+                el = seg.core_at(I, i_)
+                ok = isinstance(el, tuple) and el[0] == "tree-from" and el[1] == ("field", "tree", c.key(), i_.key())
+        no_weights = lp is None or (isinstance(lp, RecList) and not lp.items) or lp == []
+        P.check("consensus-command.counts.every-entry-of-every-chain", ok and no_weights, "counts mode: every entry of every chain is restored and counted once; no weights", kind="post")
+    tt = [e for e in log if e[0] == "to-tree"]
+    tb = [e for e in log if e[0] == "table"]
+    wr = [e for e in log if e[0] == "write"]
+    ok_tail = len(tt) == 1 and tt[0][1] == ("chain-field", "data", Num.const(0).key()) and tt[0][2] == ("graph",) \
+        and len(tb) == 1 and tb[0][1] == ("chain-field", "data", Num.const(0).key()) and tb[0][2] == ("chain-field", "samples", Num.const(0).key()) and tb[0][3] == ("tree",) \
+        and isinstance(tb[0][4], tuple) and tb[0][4][:3] == ("chain-field-or-none", "clusters", Num.const(0).key()) and tb[0][4][3] is None \
+        and len(wr) == 1 and wr[0][1] == ("out-table",) and wr[0][2] == ("out-tree",) and wr[0][3] == ("frame", ("table",)) and wr[0][4] == ("tree",)
+    P.check("consensus-command.table-and-tree-of-the-consensus", ok_tail,
+            "the consensus graph becomes a Tree over the trace's data, is tabulated with the trace's samples and clusters, and exactly that table and tree are written", kind="post")
+
+
+def h_exp_normalize(I, fi):
+    """exp_normalize(v) for a vector of any length n >= 1: entry i of the first result is exp(v_i - L) / sum_j exp(v_j - L) with L = log_sum_exp(v), i.e.
+    exp(v_i) / sum_j exp(v_j): the weights are positive and sum to one (log_sum_exp by its own contract: log sum_j exp v_j)."""
+    P = I.P
+    n = alg.sym("n", "Int")
+    P.assume(P.z(n) >= 1)
+    L = alg.sym("L")
+
+    class Vec(Model):
+        """a 1-D float array given by its element function"""
+
+        def __init__(self, elem):
+            self.elem = elem
+
+        def binop(self, I_, op, other, swapped):
+            if isinstance(other, Vec):
+                raise Unsupported("vector (op) vector")
+            o = I_.to_num(other)
+            f = self.elem
+            if isinstance(op, ast.Sub):
+                return Vec((lambda i: o - f(i)) if swapped else (lambda i: f(i) - o))
+            if isinstance(op, ast.Div) and not swapped:
+                return Vec(lambda i: f(i) / o)
+            raise Unsupported("vector operation %s" % type(op).__name__)
+
+        def m_sum(self, I_):
+            b = alg.fresh_bound()
+            return alg.bigsum("", n, self.elem(b), bound=b)
+
+    v = Vec(lambda i: alg.raw_app("v", i))
+
+    class NP(Model):
+        def m_exp(self, I_, x):
+            if not isinstance(x, Vec):
+                raise Unsupported("np.exp of a scalar here")
+            f = x.elem
+            return Vec(lambda i: alg.sexp(f(i)))
+
+    I.registry.globals_override["np"] = NP()
+    I.registry.call_contracts["phyclone.utils.math.log_sum_exp"] = lambda I_, a, k, nd: L if a[0] is v else (_ for _ in ()).throw(Unsupported("log_sum_exp of something else"))
+    out = I.call_function(fi, [v], {}, force_inline=True)
+    dsl.cover(I, "exp_normalize")
+    ok = isinstance(out, tuple) and len(out) == 2 and isinstance(out[0], Vec) and isinstance(out[1], Num) and (out[1] - L).is_zero()
+    P.check("exp_normalize.returns-weights-and-log-norm", ok, "returns (weights, log_sum_exp(v))", kind="post")
+    if ok:
+        i = alg.sym("i", "Int")
+        P.assume(z3.And(P.z(i) >= 0, P.z(i) < P.z(n)))
+        b = alg.fresh_bound()
+        total = alg.bigsum("", n, alg.sexp(alg.raw_app("v", b) - L), bound=b)
+        # contract of log_sum_exp (L = log sum_j exp v_j): sum_j exp(v_j - L) = 1; with it the renormalisation p / p.sum() is a no-op in exact arithmetic
+        P.assume(P.z(total) == 1, "log_sum_exp contract")
+        want = alg.sexp(alg.raw_app("v", i) - L)
+        got = out[0].elem(i)
+        P.check("exp_normalize.entry", bool(alg.is_identically_zero(got - want)) or not P.feasible(P.z(got) != P.z(want)),
+                "weight i = exp(v_i - L) = exp(v_i) / sum_j exp(v_j): positive, and the weights sum to one", kind="post")
+
+
 def h_consensus_labels(I, fi):
     """get_tree_from_consensus_graph: the label of every data point listed by a consensus node is that node, every other data point is
     labelled with the outlier node, top-level consensus nodes are attached to the root, and the Tree is built from exactly that."""
@@ -1050,6 +1288,8 @@ def verify_all(ctx, repo, prop="C16"):
     dsl.verify(ctx, repo, dsl.Registry(), prop, CONS + ".find_smallest_superset", h_smallest_superset, expect_covers=SUPERSET_COVERS)
     dsl.verify(ctx, repo, dsl.Registry(), prop, CONS + ".consensus", h_consensus, expect_covers=["consensus.generic-clade"])
     dsl.verify(ctx, repo, dsl.Registry(), prop, CONS + ".get_consensus_tree", h_pipeline, expect_covers=["pipeline.ran"])
+    dsl.verify(ctx, repo, dsl.Registry(), prop, PT + ".write_consensus_results", h_consensus_command, expect_covers=["consensus-command.weighted", "consensus-command.counts"])
+    dsl.verify(ctx, repo, dsl.Registry(), prop, "phyclone.utils.math.exp_normalize", h_exp_normalize, expect_covers=["exp_normalize"])
     dsl.verify(ctx, repo, dsl.Registry(), prop, PT + ".get_tree_from_consensus_graph", h_consensus_labels, expect_covers=CLABEL_COVERS)
     dsl.verify(ctx, repo, dsl.Registry(), prop, PT + ".from_dict_nx", h_from_dict_nx, expect_covers=["from_dict_nx", "from_dict_nx.labelled", "from_dict_nx.edge", "from_dict_nx.clone"])
     dsl.verify(ctx, repo, dsl.Registry(), prop, TU + "._clades", h_clades_rec, expect_covers=["clades.rec"])
